@@ -108,6 +108,7 @@ package ttlv
 //@   requires dec != nil && hdOK(dec.buf)
 //@   ensures old(len(dec.buf) > 0 && dec.buf[3] == 10 && tagOf(dec.buf) == tag) && hdOK(old(dec.buf)[8+old(padded(lenOf(dec.buf))):]) ==> r1 == nil
 //@   ensures r1 == nil ==> int64(r0) == int64(old(be32(dec.buf, 8)))*1000000000 && advanced(dec.buf, old(dec.buf)) && hdOK(dec.buf)
+//@   ensures r1 == nil ==> 0 <= int64(r0) && int64(r0)%1000000000 == 0 && int64(r0)/1000000000 == int64(old(be32(dec.buf, 8)))
 //@   modifies dec.buf
 
 //@ func (*ttlvReader).Bitmask
@@ -159,46 +160,55 @@ package ttlv
 //@ func (*ttlvWriter).Integer
 //@   requires enc != nil
 //@   ensures is_cat(enc.buf, old(enc.buf), hdrseq(tag, 2, 4), be32seq(value), 0, 0, 0, 0)
+//@   ensures off(enc.buf) == old(off(enc.buf)) && (samearr(enc.buf, old(enc.buf)) || isnew(enc.buf))
 //@   modifies enc.buf, elems(enc.buf)
 
 //@ func (*ttlvWriter).LongInteger
 //@   requires enc != nil
 //@   ensures is_cat(enc.buf, old(enc.buf), hdrseq(tag, 3, 8), be64seq(value))
+//@   ensures off(enc.buf) == old(off(enc.buf)) && (samearr(enc.buf, old(enc.buf)) || isnew(enc.buf))
 //@   modifies enc.buf, elems(enc.buf)
 
 //@ func (*ttlvWriter).Enum
 //@   requires enc != nil
 //@   ensures is_cat(enc.buf, old(enc.buf), hdrseq(tag, 5, 4), be32seq(value), 0, 0, 0, 0)
+//@   ensures off(enc.buf) == old(off(enc.buf)) && (samearr(enc.buf, old(enc.buf)) || isnew(enc.buf))
 //@   modifies enc.buf, elems(enc.buf)
 
 //@ func (*ttlvWriter).Bool
 //@   requires enc != nil
 //@   ensures is_cat(enc.buf, old(enc.buf), hdrseq(tag, 6, 8), 0, 0, 0, 0, 0, 0, 0, ite(value, 1, 0))
+//@   ensures off(enc.buf) == old(off(enc.buf)) && (samearr(enc.buf, old(enc.buf)) || isnew(enc.buf))
 //@   modifies enc.buf, elems(enc.buf)
 
 //@ func (*ttlvWriter).TextString
 //@   requires enc != nil
 //@   ensures is_cat(enc.buf, old(enc.buf), hdrseq(tag, 7, len(str)), str, rep(0, padlen(len(str))))
+//@   ensures off(enc.buf) == old(off(enc.buf)) && (samearr(enc.buf, old(enc.buf)) || isnew(enc.buf))
 //@   modifies enc.buf, elems(enc.buf)
 
 //@ func (*ttlvWriter).ByteString
-//@   requires enc != nil && arr(str) != arr(enc.buf)
+//@   requires enc != nil && (len(str) == 0 || arr(str) != arr(enc.buf))
 //@   ensures is_cat(enc.buf, old(enc.buf), hdrseq(tag, 8, len(str)), old(str), rep(0, padlen(len(str))))
+//@   ensures off(enc.buf) == old(off(enc.buf)) && (samearr(enc.buf, old(enc.buf)) || isnew(enc.buf))
 //@   modifies enc.buf, elems(enc.buf)
 
 //@ func (*ttlvWriter).DateTime
 //@   requires enc != nil
 //@   ensures is_cat(enc.buf, old(enc.buf), hdrseq(tag, 9, 8), be64seq(unix(date)))
+//@   ensures off(enc.buf) == old(off(enc.buf)) && (samearr(enc.buf, old(enc.buf)) || isnew(enc.buf))
 //@   modifies enc.buf, elems(enc.buf)
 
 //@ func (*ttlvWriter).Interval
 //@   requires enc != nil && 0 <= interval && int64(interval)%1000000000 == 0 && int64(interval)/1000000000 < 1<<32
 //@   ensures is_cat(enc.buf, old(enc.buf), hdrseq(tag, 10, 4), be32seq(int64(interval)/1000000000), 0, 0, 0, 0)
+//@   ensures off(enc.buf) == old(off(enc.buf)) && (samearr(enc.buf, old(enc.buf)) || isnew(enc.buf))
 //@   modifies enc.buf, elems(enc.buf)
 
 //@ func (*ttlvWriter).Bitmask
 //@   requires enc != nil
 //@   ensures is_cat(enc.buf, old(enc.buf), hdrseq(tag, 2, 4), be32seq(value), 0, 0, 0, 0)
+//@   ensures off(enc.buf) == old(off(enc.buf)) && (samearr(enc.buf, old(enc.buf)) || isnew(enc.buf))
 //@   modifies enc.buf, elems(enc.buf)
 
 //@ functype func(ttlv.writer)
